@@ -13,6 +13,10 @@ def strD (j : Json) (k : String) : String := (jstr j k).toOption.getD ""
 def intD (j : Json) (k : String) : Int := (jint j k).toOption.getD 0
 def boolD (j : Json) (k : String) : Bool := (jbool j k).toOption.getD false
 def getJ (j : Json) (k : String) : Json := (j.getObjVal? k).toOption.getD Json.null
+/-- The fake authenticator's `/profile` answer, like the real one's: of the groups asked about (the comma-joined
+    `groups` parameter), those the scripted directory lists for the user. -/
+def askedOf (asked scripted : List String) : List String :=
+  ((",".intercalate asked).splitOn ",").filter (scripted.contains ·)
 def toB (s : String) : Sso.Validators.Bytes := s.toUTF8.toList
 
 structure Up where
@@ -95,12 +99,18 @@ def outcomeExpect (P : Proxy.Policy) (xhr : Bool) (h : HandlerOut) (upStatus : N
   | .unauthorized => { base with status := some 401 }
   | .notFound => { base with status := some 404 }
 
+/-- A header value as the backend's HTTP server reads it: optional whitespace around the field value is not part of it
+    (RFC 7230 §3.2.4; Go's transport and server both trim it). -/
+def ows (s : String) : String :=
+  let isWs := fun (c : Char) => c == ' ' || c == '\t'
+  String.ofList (((s.toList.dropWhile isWs).reverse.dropWhile isWs).reverse)
+
 def idJson (id : Option Identity) : Json :=
   match id with
   | none => Json.mkObj []
   | some i =>
-    Json.mkObj ([("X-Forwarded-Email", Json.arr #[Json.str (showBytes i.email)]),
-      ("X-Forwarded-Groups", Json.arr #[Json.str (",".intercalate i.groups)]), ("X-Forwarded-User", Json.arr #[Json.str i.user])] ++
+    Json.mkObj ([("X-Forwarded-Email", Json.arr #[Json.str (ows (showBytes i.email))]),
+      ("X-Forwarded-Groups", Json.arr #[Json.str (ows (",".intercalate i.groups))]), ("X-Forwarded-User", Json.arr #[Json.str (ows i.user)])] ++
       (match i.accessToken with | some t => [("X-Forwarded-Access-Token", Json.arr #[Json.str t])] | none => []))
 
 def checkCase (j : Json) : Except String Verdict := do
@@ -190,7 +200,7 @@ def checkCase (j : Json) : Except String Verdict := do
           | none => .absent
       let a : Ans := { refresh := replyOf (getJ inp "ansRefresh") (fun x => (strD x "token", intD x "ttl")) 201,
                        validate := replyOf (getJ inp "ansValidate") (fun _ => ()) 200 true,
-                       profile := replyOf (getJ inp "ansProfile") (fun x => strs x "groups") 200 }
+                       profile := replyOf (getJ inp "ansProfile") (fun x => askedOf u.groups (strs x "groups")) 200 }
       let upStatus := let s := (jnat (getJ inp "upstreamResp") "status").toOption.getD 0; if s == 0 then 200 else s
       let httpsRedirect := secure && strD ora "urlScheme" != "https" && strD inp "proto" != "https"
       if httpsRedirect then
@@ -278,7 +288,7 @@ def checkCase (j : Json) : Except String Verdict := do
       let P : Proxy.Policy := { slug := slug, rules := u.rules, allowedGroups := u.groups, L := ttlL, V := ttlV, G := ttlG, passAccessToken := false, skipPreflight := false }
       let a : Ans := { refresh := replyOf (getJ inp "ansRefresh") (fun x => (strD x "token", intD x "ttl")) 201,
                        validate := replyOf (getJ inp "ansValidate") (fun _ => ()) 200 true,
-                       profile := replyOf (getJ inp "ansProfile") (fun x => strs x "groups") 200 }
+                       profile := replyOf (getJ inp "ansProfile") (fun x => askedOf u.groups (strs x "groups")) 200 }
       let whitel := boolD ora "skipMatch"
       -- C13: the backend that received the request is the one the Host routes to (independent oracle), and it got the right Host
       if reached then
